@@ -134,8 +134,8 @@ variants and arities of the source.  The theorem pins the variant lists to the d
 states that every model node is one of them. -/
 theorem C04_ast_vocabulary :
     Generated.astFields.map (·.1) =
-      ["Comparison", "Condition", "Identity", "Expref", "Flatten", "Function", "Field", "Index", "Literal",
-       "MultiList", "MultiHash", "Not", "Projection", "ObjectValues", "And", "Or", "Slice", "Subexpr"]
+      ["And", "Comparison", "Condition", "Expref", "Field", "Flatten", "Function", "Identity", "Index", "Literal",
+       "MultiHash", "MultiList", "Not", "ObjectValues", "Or", "Projection", "Slice", "Subexpr"]
     ∧ (∀ a : Ast, Generated.astVariant a ∈ Generated.astFields.map (·.1))
     ∧ (∀ c : Cmp, Generated.comparatorVariant c ∈ Generated.comparatorFields.map (·.1))
     ∧ (∀ t : Tok, Generated.tokenVariant t ∈ Generated.tokenFields.map (·.1))
